@@ -57,6 +57,18 @@ PROPS = {
             U("c05", "TestNodeDense", T(3, 16, 300, shrinktime="60s"), T(40, 16, 2400, shrinktime="180s"), needs=["nodeexec"]),
         ],
     },
+    "C06": {
+        "level": "exploration",
+        "units": [
+            U("c06", "TestReplicas", T(3, 16, 400, shrinktime="60s"), T(40, 16, 3000, shrinktime="240s"), needs=["nodeexec"]),
+        ],
+    },
+    "C09": {
+        "level": "exploration",
+        "units": [
+            U("c09", "TestStateTransfer", T(2, 16, 400, shrinktime="60s"), T(30, 16, 3000, shrinktime="240s"), needs=["nodeexec"]),
+        ],
+    },
     "C07": {
         "level": "fault_enumeration",
         "units": [
@@ -87,7 +99,7 @@ PROPS = {
     "C11": {
         "level": "exploration",
         "units": [
-            U("c11", "TestRequests", T(2, 16, 400, shrinktime="60s"), T(40, 16, 3000, shrinktime="240s"), needs=["nodeexec"]),
+            U("c11", "TestRequests", T(5, 16, 400, shrinktime="60s"), T(40, 16, 3000, shrinktime="240s"), needs=["nodeexec"]),
         ],
     },
     "C12": {
